@@ -31,19 +31,22 @@ void h_dummy_table(void)
   s->u.s.tmap_new2old[0] = DT_SLOT; s->u.s.tmap_old2new[DT_SLOT] = 0;
   { unsigned i; for (i = 0; i < MAX_ALPHA_SIZE; i++) s->u.s.length[DT_SLOT ^ 1][i] = 77; }      /* stale content of the unused slot */
 #include "src/extract/dummy_table.inc"
-  /* ---- what the format requires of the table that no group uses */
-  unsigned tt = DT_SLOT ^ 1, i, longer = 0, mn = 255, mx = 0; uint64_t kraft = 0;
+  /* ---- what the format requires of the table that no group uses.  Formulated locally (ghost index q, boundary index n0) instead of as a
+     258-term Kraft sum, which SAT needs 15 minutes for: if every length is lo or lo+1, non-decreasing, and the first n0 are the short ones,
+     the Kraft sum is n0 / 2^lo + (as - n0) / 2^(lo+1), which is 1 exactly when as + n0 == 2^(lo+1). */
+  unsigned tt = DT_SLOT ^ 1;
+  V_IN(unsigned, q);
+  V_IN(unsigned, n0);
   V_ASSERT(nt == 2 && t == tt && s->u.s.tmap_new2old[1] == tt && s->u.s.tmap_old2new[tt] == 1 && s->u.s.tmap_new2old[0] == DT_SLOT, "single-table block: a second table is added in a different slot, the real table keeps number 0");
-  for (i = 0; i < MAX_ALPHA_SIZE; i++) if (i < as) {
-    unsigned l = s->u.s.length[tt][i];
-    if (l < mn) mn = l; if (l > mx) mx = l;
-    if (l >= 1 && l <= 20) kraft += (uint64_t)1 << (20 - l);
-    if (i > 0 && l != s->u.s.length[tt][i - 1]) longer++;
-  }
-  V_ASSERT(mn >= 1 && mx <= 20, "dummy table: every code length is within 1..20");
-  V_ASSERT(kraft == ((uint64_t)1 << 20), "dummy table: the code is complete (Kraft sum exactly 1) for every alphabet size 3..258");
-  V_ASSERT(mx - mn <= 1 && longer <= 1, "dummy table: lengths are non-decreasing with at most one step of +1 (what the cost formula assumes)");
-  V_ASSERT(cost == cost0 + 5 + as + 2 * longer, "dummy table: the bit cost added is its transmitted size (5-bit start value, one stop bit per symbol, 2 bits per length step)");
+  V_ASSUME(q < MAX_ALPHA_SIZE && q + 1 < as && n0 <= as);
+  unsigned lo = s->u.s.length[tt][0], hi = s->u.s.length[tt][as - 1];
+  V_ASSERT(lo >= 1 && hi <= 20, "dummy table: every code length is within 1..20");
+  V_ASSERT(hi == lo || hi == lo + 1, "dummy table: at most two adjacent code lengths are used");
+  V_ASSERT(s->u.s.length[tt][q] >= lo && s->u.s.length[tt][q + 1] <= hi && s->u.s.length[tt][q] <= s->u.s.length[tt][q + 1], "dummy table: lengths are non-decreasing (at most one step of +1, what the cost formula assumes)");
+  /* n0 = number of symbols with the short length: the boundary is where the length changes (unique by monotonicity) */
+  V_ASSUME((n0 == as || s->u.s.length[tt][n0] == lo + 1) && (n0 == 0 || s->u.s.length[tt][n0 - 1] == lo) && (hi == lo ? n0 == as : (n0 >= 1 && n0 < as)));
+  V_ASSERT((uint64_t)as + n0 == ((uint64_t)2 << lo), "dummy table: the code is complete (Kraft sum exactly 1) for every alphabet size 3..258");
+  V_ASSERT(cost == cost0 + 5 + as + 2 * (hi - lo), "dummy table: the bit cost added is its transmitted size (5-bit start value, one stop bit per symbol, 2 bits per length step)");
   if (as == DT_HI) V_CANARY("largest alphabet of the range");
   if (as == DT_LO) V_CANARY("smallest alphabet of the range");
 }
